@@ -18,7 +18,7 @@ META = {
     "technique": "runtime monitoring with event-stream mangling at the provider boundary + family oracles + untouched-object write ledger",
     "plan": {"quick": {"shards": 16, "timeout": 600, "cases": 9000},
              "thorough": {"shards": 32, "timeout": 3000, "cases": 250000}},
-    "rule": "case = main-family case (ONE/DISJ/CONF x flavour x shape) + 2-4 never-touched files in the base tree + a mangler "
+    "rule": "case = main-family case (ONE/DISJ/CONF/REUSE x flavour x shape; REUSE without reordering manglers, plus cases//6 REUSE cases with them whose failures are attributed to K24 by predicate) + 2-4 never-touched files in the base tree + a mangler "
             "configuration per side drawn from {dup, late-dup, split, idless, ghost, droppath, delay, permute} + optional "
             "manual walks; distinct = distinct (case signature, mangler sets); non-trivial = >= 1 event mangled and >= 1 engine write",
     "assumptions": ["events of the mock carry the provider cursor; no restarts in this check"],
@@ -159,7 +159,7 @@ def evaluate(case, obs, sim, monitors):
         cp = O.conflicted_paths(L, R)
         if cp:
             probs.append(("conflicted_artefact", cp[:3]))
-        if case["family"].startswith("ONE"):
+        if case["family"].startswith(("ONE", "REUSE")):
             side = int(case["family"][-1])
             ow = [c for c in O.engine_writes(sim, side=side, since=since) if c.get("ok") and c.get("ev")]
             if ow:
@@ -172,13 +172,40 @@ def evaluate(case, obs, sim, monitors):
     return probs
 
 
-def make(seed, i, flavours):
-    case = F.make_case(seed, PROP, i, flavours=flavours)
+def k24_eligible(case):
+    """input predicate of finding K24: on a side whose stream is reordered (delay / permute / late duplicate), a folder
+    path is vacated by a folder rename and later taken by another folder"""
+    for side in (0, 1):
+        if not set(case["manglers"][side]) & set(MANGLERS_STABLE):
+            continue
+        moved_from = set()
+        for e in case["sched"]:
+            if e[0] != "U" or e[1]["side"] != side:
+                continue
+            op = e[1]
+            if op["op"] == "rendir":
+                if op["to"] in moved_from:
+                    return True
+                moved_from.add(op["path"])
+            elif op["op"] == "mkdir" and op["path"] in moved_from:
+                return True
+    return False
+
+
+def make(seed, i, flavours, seek=False):
+    if seek:
+        case = F.make_case(seed, PROP + "seek", i, families=("REUSE0", "REUSE1"), flavours=("oo", "of", "fo", "po", "op"))
+    else:
+        case = F.make_case(seed, PROP, i, flavours=flavours)
     rng = random.Random("%s:C14m:%d" % (seed, i))
     case = add_untouched(case, rng)
     kinds = []
+    # histories that take vacated names again (REUSE) get reordering manglers only in the seek round: a stale event that
+    # places a moved folder back at its old path makes the engine write that folder's entry off when another folder is
+    # created there (finding K24)
+    stable_ok = seek or not case["family"].startswith("REUSE")
     for side in (0, 1):
-        pool = list(MANGLERS_ALL) + (list(MANGLERS_STABLE) if case["flavour"][side] != "p" else [])
+        pool = list(MANGLERS_ALL) + (list(MANGLERS_STABLE) if case["flavour"][side] != "p" and stable_ok else [])
         kinds.append(sorted(rng.sample(pool, rng.randrange(1, 4))))
     case["manglers"] = kinds
     # manual walks interleaved
@@ -333,6 +360,19 @@ def shard(ctx, acc):
         acc.sample(dict(W.brief_case(case), manglers=case["manglers"]), cap=3)
         if probs:
             acc.violation(probs[0][0], probs[:4], case)
+    # seek round: name reuse under reordered delivery; failures attributed to K24 by input predicate or reported
+    for i in F.indices(ctx, plan["cases"] // 6):
+        case = make(ctx.seed, i, flavours, seek=True)
+        probs = run(case, acc)
+        if probs is None:
+            continue
+        acc.count("seek_cases")
+        if probs:
+            if k24_eligible(case):
+                acc.count("seek_failures_attributed_K24")
+                acc.known_hit("K24", dict(W.brief_case(case), manglers=case["manglers"]))
+            else:
+                acc.violation("seek:" + probs[0][0], probs[:4], case)
 
 
 def conclusive(acc, tier):
